@@ -406,6 +406,8 @@ public:
     }
 
     void cancel() {
+        _rec_channel.cancel();
+
         if (!_stream.is_open()) return;
 
         _ping_timer.cancel();
